@@ -34,6 +34,10 @@ CLAIMED = {
    text="Kernel-checked over the template table regenerated from lib/vorbisenc.c + lib/modes/*.h on every run: every array the set-up code indexes with the base setting (is / is+1) is long enough in every shipped template (C15_tables, 468 obligations by decide +kernel), maps have mappings+1 points (C15_maps_sized); for every request (any rational, ±inf, NaN) a chosen template's integer base setting, computed with the C's exact float arithmetic (Vorbis/F32.lean), satisfies is+1 <= mappings (C15_base_in_interval, C15_select_in_bounds — false of the unrepaired code: finding F15); the decision table of the return codes (C15_codes); one-step calls succeed completely (frozen set-up, requested channels/rate, 1..255 channels) or leave the info cleared (C15_clean). Tied to the C by an argument grid dense at every template edge and at every map point ±ulp, channels -1..300, NaN/inf qualities, bitrate triples, RATEMANAGE2 sets and other ctl numbers before/after setup_init: return code, template number, (int)base_setting, flags, channels/rate compared with the model; successful set-ups then run analysis_init, headerout and encode under ASan/UBSan; disagreements on control requests are escalated by a search that replays them in front of stressed managed encodes. Found and fixed F14 (NaN bias/damping accepted) and F15 (float rounding carries the base setting to 'mappings': out-of-bounds table read for quality 0.99999982 at 22.05 kHz — found because the theorem was false by decide).",
    note="The float arithmetic of get_setup_template is modelled exactly on rationals (r32/r64 rounding; normal range only) and compared with the C at every map point ±1..2 ulp; hi->req for VBR is taken from the implementation. psy/envelope/mapping float set-up (F8 class) is covered by sanitizer runs only. ctl requests other than RATEMANAGE2_SET: codes and memory safety only.",
    tech="Lean 4 proof over translator-regenerated template tables (decide +kernel) + decision-logic theorems + differential argument grid under sanitizers"),
+ "C05": dict(cat="proof", ref="§8 C05",
+   text="PARTIAL. Kernel-checked: the identification header round trip at the byte level for every channels 1..255, rate, bitrate triple and legal block-size pair (C05_ident); the comment header round trip (C05_comment); the window flags of consecutive blocks handed out by the encoder agree with their neighbours' block sizes for every envelope-search answer (C05_flags, C05_flags_untouched, on the analysis bookkeeping model tied call-by-call under C04). Decided per generated configuration (testing, labelled so): all three encoder headers and every audio packet go through the C decoder and through the Lean header/packet-header model (which must accept, with valid Huffman trees, and agree on codes, fields, window flags, sample counts); oracles: header fields equal the encoder's info, flags agree with neighbours, unmanaged packets are consumed to within their last byte, managed packets never run out of bits unless a hard maximum is set, samples finite.",
+   note="Not proved: the set-up header packer/unpacker round trip (no packer model) and bit-exact consumption of floor/residue payloads (float-driven choices; observed on the real decoder over 31+ configurations x 9 signal classes x VBR/managed set-ups). Trusted: Lean kernel, harness, the c02 stream as tie for the header parser.",
+   tech="Lean 4 proof (byte-level round trips, window-flag invariant) + per-configuration differential validation of headers and packets"),
 }
 
 NA_REASON = "not yet built in this round: model/theorems for this property are not in the tree yet (see DESIGN.md §8 for the plan)"
